@@ -24,7 +24,7 @@ type flowGen struct {
 	obs    []Observer
 	early  []int // observers subscribed from the start
 	breaks int
-	conn   bool // the target has its address for itself: closing the transport breaks only its stream
+	conn   bool         // the target has its address for itself: closing the transport breaks only its stream
 	narrow map[int]bool // observers whose client query gets paths (drawn when the scripts are complete)
 	recon  []int        // reconnecting observers
 	rt     bool         // some break is a silence: the target needs a receive timeout
